@@ -6,10 +6,12 @@ for l in open('/verif/properties.jsonl'):
     if p['id']==pid: break
 wt=f"/tmp/wt/{pid}_{n}"
 import os
-ideas=json.load(open("/verif/tools/first_round_ideas.json")) if os.path.exists("/verif/tools/first_round_ideas.json") else {}
+ideas=json.load(open("/verif/tools/prior_ideas.json")) if os.path.exists("/verif/tools/prior_ideas.json") else {}
 avoid=""
 if n!="1" and pid in ideas:
-    avoid=f"\nAn earlier attempt already used this idea, so do NOT reuse it or a close variant: {ideas[pid]}. Choose a substantially different idea — a different code site, or a different clause of the property (the statement has several), or a different kind of trigger.\n"
+    prev=ideas[pid][:int(n)-1]
+    lst="\n".join(f"  ({i+1}) {t}" for i,t in enumerate(prev))
+    avoid=f"\nEarlier attempts already used the following ideas, so do NOT reuse any of them or a close variant:\n{lst}\nChoose a substantially different idea — a different code site, or a different clause of the property (the statement has several), or a different kind of trigger (e.g. an API entry point, configuration option or input class the ideas above do not touch).\n"
 print(f"""You are helping test a verification suite by producing a realistic, subtle regression in the Rust project metrics-rs/metrics.
 
 Your private working copy is the git worktree at {wt} (a checkout of the project; work ONLY there; never touch /repo or /verif; do not read anything under /verif). The sandbox is offline: always pass --offline to cargo (e.g. `cd {wt} && cargo test --offline -p metrics-util`). The toolchain is pinned by rust-toolchain.toml (1.74.0). Some source lines are `#[cfg(metrics_verif)]` hook calls — leave those lines alone and do not build with that cfg.
@@ -30,6 +32,6 @@ Then write a demonstration: a new test file or small example program in the work
 
 Deliver, inside {wt}/_out/ (create it):
   - patch.diff : `git diff` of ONLY the library source change (not the demo), applicable with `git apply` at the repository root;
-  - the demonstration file(s) and a file demo_cmd.txt with the exact command to run the demo from the worktree root;
+  - the demonstration file(s) and a file demo_cmd.txt whose LAST line is one self-contained shell command that, run from the worktree root of a clean checkout, copies the demo from _out/ into place and runs it (e.g. `mkdir -p <crate>/tests && cp _out/demo.rs <crate>/tests/demo.rs && cargo test --offline -p <crate> --test demo`);
   - notes.md : what the change is, which part of the property it breaks, and exactly what is needed for it to manifest.
 Finally leave the worktree with the library change reverted (`git checkout -- .` for tracked files; keep _out/). Reply with a short summary (the change, the trigger, and the verification you did). Be efficient: aim to finish within ~25 minutes of work; prefer a second, different idea only if the first fails (a)-(c).""")
